@@ -131,6 +131,10 @@ theorem C05_lock_held_across_closure_blocks_release :
     invoking a closure), so anything acquired there and held across the call could exhaust and deadlock. -/
 theorem C05_reflect_call_never_waits : Skeleton.current.ucNoWaiting = true ∧ Skeleton.current.stateGlobals = [] := by decide
 
+/-- Panics on the stub's, the proxy's and the handler goroutine's own path are recovered, converted and
+    reported in the canonical way (see `C03_recover_blocks_canonical`). -/
+theorem C05_recover_blocks_canonical : Skeleton.current.recoverBlocksCanonical = true := by decide
+
 end Panrpc.Ep
 
 #print axioms Panrpc.Ep.C05_closure_release_never_waits_for_a_running_closure
@@ -143,3 +147,4 @@ end Panrpc.Ep
 #print axioms Panrpc.Ep.C05_lock_never_held_across_select
 #print axioms Panrpc.Ep.C05_fails_on_pinned
 #print axioms Panrpc.Ep.C05_reflect_call_never_waits
+#print axioms Panrpc.Ep.C05_recover_blocks_canonical
